@@ -158,6 +158,17 @@ func (*BinaryBoolExprNode) GetType() NodeType {
 }
 
 func (node *BinaryBoolExprNode) EvalBool(s Symbols) bool {
+	// same null rule as the other typed comparisons: a null operand makes the comparison
+	// false, except != (true iff exactly one side is null)
+	leftNil := isNilBoolOperand(s, node.left)
+	rightNil := isNilBoolOperand(s, node.right)
+	if leftNil || rightNil {
+		if node.op == BinaryOpNEQ {
+			return leftNil != rightNil
+		}
+		return false
+	}
+
 	leftResult := node.left.EvalBool(s)
 	rightResult := node.right.EvalBool(s)
 
@@ -169,6 +180,17 @@ func (node *BinaryBoolExprNode) EvalBool(s Symbols) bool {
 	}
 
 	pfxlog.Logger().Errorf("unhandled boolean binary expression type %v", node.op)
+	return false
+}
+
+// isNilBoolOperand reports whether a bool operand is a symbol whose value is null or not a bool
+func isNilBoolOperand(s Symbols, node BoolNode) bool {
+	switch symbolNode := node.(type) {
+	case *BoolSymbolNode:
+		return s.EvalBool(symbolNode.Symbol()) == nil
+	case *AnyTypeSymbolNode:
+		return s.EvalBool(symbolNode.Symbol()) == nil
+	}
 	return false
 }
 
